@@ -143,8 +143,10 @@ def rule_bisect(prog, rep):
     mid = mk_div(mk_add((lo_b, up_b)), C(2))
     zs = compared_with_consts(("tuple", (new_lo, new_up)))
     want_sign = sign_of(fcall(mid))
-    if len(zs) != 1:
-        rep.undecided("C10.bracket", site, "bisection:sign", f"expected one sign term, found {[show(z, 80) for z in zs]}")
+    if len(zs) != 1 or same(zs[0], fcall(mid)):
+        # the body does not go through one sign term: decide the same three cases on the value func(midpoint) itself
+        _bracket_by_value_cases(rep, site, new_lo, new_up, fcall(mid), lo_b, up_b, mid)
+        _root_and_start(rep, site, t, w, init, I_LO, I_UP)
         return
     S = zs[0]
     rep.check(equal(S, want_sign), "C10.bracket", site, "bisection:sign==sign(func(midpoint))",
@@ -158,6 +160,10 @@ def rule_bisect(prog, rep):
                   f"({show(gl, 60)}, {show(gu, 60)})",
                   f"for sign(f(mid)) = {sv:+d} the new bracket is ({show(gl, 80)}, {show(gu, 80)}), expected "
                   f"({show(el, 80)}, {show(eu, 80)})")
+    _root_and_start(rep, site, t, w, init, I_LO, I_UP)
+
+
+def _root_and_start(rep, site, t, w, init, I_LO, I_UP):
     # --- returned root = midpoint of the final bracket
     root = proj(t, 0)
     want_root = mk_div(mk_add((proj(w, I_LO), proj(w, I_UP))), C(2))
@@ -171,6 +177,160 @@ def rule_bisect(prog, rep):
     rep.check(ok, "C10.bracket", site, "bisection:starts-from-adapted-interval",
               "initial bracket = _adapt_interval_to_include_root(func, lower, upper)[:2]",
               f"initial state {show(init, 200)}")
+
+
+_BOOL_OR = {("ext", "jax.numpy.logical_or"), ("ext", "jax.numpy.bitwise_or")}
+_BOOL_AND = {("ext", "jax.numpy.logical_and"), ("ext", "jax.numpy.bitwise_and")}
+_BOOL_NOT = {("ext", "jax.numpy.logical_not"), ("ext", "jax.numpy.invert"), ("ext", "jax.numpy.bitwise_not")}
+
+
+def _fold_bool(t):
+    """Constant folding of boolean structure (|, &, ~, logical_*, and/or/not terms) and of where(const, a, b)."""
+    def is_b(x):
+        return is_const(x) and isinstance(x[1], bool)
+
+    def rw(s2):
+        if s2[0] == "binop" and s2[1] in ("|", "&") and (is_b(s2[2]) or is_b(s2[3])):
+            a, b = s2[2], s2[3]
+            if s2[1] == "|":
+                if (is_b(a) and a[1]) or (is_b(b) and b[1]):
+                    return C(True)
+                return b if is_b(a) else a
+            if (is_b(a) and not a[1]) or (is_b(b) and not b[1]):
+                return C(False)
+            return b if is_b(a) else a
+        if s2[0] == "call" and (s2[1] in _BOOL_OR or s2[1] in _BOOL_AND):
+            vals = list(s2[2]) + [v for _, v in s2[3]]
+            if len(vals) == 2 and (is_b(vals[0]) or is_b(vals[1])):
+                a, b = vals
+                if s2[1] in _BOOL_OR:
+                    if (is_b(a) and a[1]) or (is_b(b) and b[1]):
+                        return C(True)
+                    return b if is_b(a) else a
+                if (is_b(a) and not a[1]) or (is_b(b) and not b[1]):
+                    return C(False)
+                return b if is_b(a) else a
+        if s2[0] == "call" and s2[1] in _BOOL_NOT:
+            vals = list(s2[2]) + [v for _, v in s2[3]]
+            if len(vals) == 1 and is_b(vals[0]):
+                return C(not vals[0][1])
+        if s2[0] == "unop" and s2[1] in ("~", "not") and is_b(s2[2]):
+            return C(not s2[2][1])
+        if s2[0] == "not" and is_b(s2[1]):
+            return C(not s2[1][1])
+        if s2[0] in ("and", "or") and any(is_b(v) for v in s2[1]):
+            vals = list(s2[1])
+            if s2[0] == "or":
+                if any(is_b(v) and v[1] for v in vals):
+                    return C(True)
+                vals = [v for v in vals if not is_b(v)]
+                return C(False) if not vals else vals[0] if len(vals) == 1 else ("or", tuple(vals))
+            if any(is_b(v) and not v[1] for v in vals):
+                return C(False)
+            vals = [v for v in vals if not is_b(v)]
+            return C(True) if not vals else vals[0] if len(vals) == 1 else ("and", tuple(vals))
+        return None
+    prev = None
+    while prev != t:
+        prev = t
+        t = fold_where(subst(t, rw))
+    return t
+
+
+def _bracket_by_value_cases(rep, site, new_lo, new_up, V, lo_b, up_b, mid):
+    """The three cases func(mid) < 0, == 0, > 0 decided on the value V = func(mid): a comparison of V (or sign(V)) with
+    0 is determined by the case; any other condition mentioning V (isclose, a comparison with another constant) is NOT
+    determined by it and is tried both ways - the new bracket must not depend on it."""
+    import itertools
+    conds = []
+    for s2 in walk(("tuple", (new_lo, new_up))):
+        if s2[0] == "call" and s2[1] == WHERE:
+            c = dict(s2[3]).get("condition")
+            if c is not None:
+                conds.append(c)
+    if not conds or not any(same(x, V) for c in conds for x in walk(c)):
+        rep.undecided("C10.bracket", site, "bisection:sign", "the bracket update does not select on func(midpoint)")
+        return
+    SV = sign_of(V)
+
+    def decidable(a):
+        if a[0] != "cmp":
+            return False
+        x, y = a[2], a[3]
+        for u, k in ((x, y), (y, x)):
+            if is_const(k) and isinstance(k[1], (int, float)) and not isinstance(k[1], bool):
+                if same(u, V) and k[1] == 0:
+                    return True
+                if same(u, SV) and k[1] in (-1, 0, 1):
+                    return True
+        return False
+
+    def atoms(c):
+        """maximal condition subterms mentioning V that are neither boolean structure nor decidable comparisons"""
+        out = []
+
+        def go(x):
+            if not any(same(y, V) for y in walk(x)):
+                return
+            if decidable(x):
+                return
+            if (x[0] == "binop" and x[1] in ("|", "&")):
+                go(x[2]); go(x[3]); return
+            if x[0] == "call" and (x[1] in _BOOL_OR or x[1] in _BOOL_AND or x[1] in _BOOL_NOT):
+                for v in list(x[2]) + [v for _, v in x[3]]:
+                    go(v)
+                return
+            if x[0] in ("and", "or"):
+                for v in x[1]:
+                    go(v)
+                return
+            if x[0] == "not":
+                go(x[1]); return
+            if x[0] == "unop":
+                go(x[2]); return
+            if not any(same(x, o) for o in out):
+                out.append(x)
+        go(c)
+        return out
+    free = []
+    for c in conds:
+        for a in atoms(c):
+            if not any(same(a, o) for o in free):
+                free.append(a)
+    if len(free) > 4:
+        rep.undecided("C10.bracket", site, "bisection:sign", f"{len(free)} conditions on func(midpoint) besides its sign")
+        return
+    rep.check(True, "C10.bracket", site, "bisection:sign==sign(func(midpoint))",
+              "the bracket update selects on func((lower+upper)/2) itself (cases < 0, == 0, > 0)", "")
+    expect = {1: (lo_b, mid), -1: (mid, up_b), 0: (mid, mid)}
+    for sv, (el, eu) in expect.items():
+        bad = None
+        for assign in itertools.product((False, True), repeat=len(free)):
+            if sv == 0 and any(not v and a[0] == "call" and a[1] == ("ext", "jax.numpy.isclose") for a, v in zip(free, assign)):
+                continue      # isclose(0, 0) holds for every tolerance
+
+            def rw_atoms(s2, assign=assign):
+                for a, v in zip(free, assign):
+                    if same(s2, a):
+                        return C(v)
+                return None
+
+            def rw_value(s2):
+                return C(sv) if (same(s2, SV) or same(s2, V)) else None
+            gl, gu = (_fold_bool(subst(subst(x, rw_atoms), rw_value)) for x in (new_lo, new_up))
+            if not (equal(gl, el) and equal(gu, eu)):
+                bad = (assign, gl, gu)
+                break
+        if bad is None:
+            rep.check(True, "C10.bracket", site, f"bisection:case sign={sv:+d}", f"({show(el, 60)}, {show(eu, 60)})", "")
+        else:
+            assign, gl, gu = bad
+            dep = "; ".join(f"{show(a, 80)} = {v}" for a, v in zip(free, assign))
+            rep.violated("C10.bracket", site, f"bisection:case sign={sv:+d}",
+                         f"for sign(f(mid)) = {sv:+d}" + (f" and {dep}" if dep else "") +
+                         f" the new bracket is ({show(gl, 80)}, {show(gu, 80)}), expected ({show(el, 80)}, {show(eu, 80)})" +
+                         (": the update depends on a condition that the sign of func(midpoint) does not determine (a "
+                          "residual test replaces the exact hit)" if dep else ""))
 
 
 def _state_roles(cond, st_c):
